@@ -3,6 +3,8 @@
 package main
 
 import (
+	"github.com/urfave/cli/v2"
+
 	rt "github.com/taskctl/taskctl/internal/verifrt"
 	"github.com/taskctl/taskctl/pkg/runner"
 	"github.com/taskctl/taskctl/pkg/scheduler"
@@ -29,19 +31,21 @@ func c14Schedule(s *scheduler.Scheduler, g *scheduler.ExecutionGraph) error {
 }
 
 func VerifC14CLI(pipeline int) {
+	vInstallCLI()
+	rt.Redirect("github.com/taskctl/taskctl/cmd/taskctl.runTask", nil)
+	rt.Redirect("github.com/taskctl/taskctl/cmd/taskctl.runPipeline", nil)
 	c14Finished = 0
 	c14Fails = rt.Bool("target-fails")
 	rt.Redirect("(*github.com/taskctl/taskctl/pkg/runner.TaskRunner).Run", c14Run)
 	rt.Redirect("(*github.com/taskctl/taskctl/pkg/runner.TaskRunner).Finish", c14Finish)
 	rt.Redirect("(*github.com/taskctl/taskctl/pkg/scheduler.Scheduler).Schedule", c14Schedule)
-	r, _ := runner.NewTaskRunner()
-	var err error
+	vConfig()
 	if pipeline == 1 {
-		g, _ := scheduler.NewExecutionGraph()
-		err = runPipeline(g, r, false)
+		vArgv = vArgs{"p1"}
 	} else {
-		err = runTask(task.FromCommands("true"), r)
+		vArgv = vArgs{"t1"}
 	}
+	err := rootAction(&cli.Context{})
 	rt.Assert((err != nil) == c14Fails, "C14.cli-propagates-the-result")
 	rt.Assert(c14Finished == 1, "C14.cli-shuts-contexts-down-whether-the-target-succeeded-or-failed")
 	rt.Cover("C14.cli-checked")
